@@ -166,6 +166,23 @@ pub fn run_c02(tier: Tier) -> ! {
         let ex = explore(&cfg, &ctx);
         acc.add("soundness", &cfg, ex);
     }
+    // idle histories in which a leak would sit (aborted frames with withheld zeros, partial escape,
+    // errors, then a noise byte): soundness of whatever is accepted next
+    let z = Sym::B(0x00);
+    let n55 = plain_bytes()[5];
+    let stale_roots: Vec<Vec<Sym>> = vec![
+        vec![Sym::Esc, Sym::Som, z, z, Sym::Reset, n55],
+        vec![Sym::Esc, Sym::Som, z, z, z, Sym::Fin, n55],
+        vec![Sym::Esc, Sym::Som, z, Sym::Esc, n55, n55, n55, n55, n55],
+        vec![Sym::Esc, Sym::Som, z, z, Sym::Esc, Sym::TailX, n55],
+        vec![Sym::Esc, Sym::Som, n55, z, z, Sym::Esc, Sym::Tail(1), n55],
+        vec![Sym::Esc, Sym::Som, Sym::Esc, Sym::B(0x1a), Sym::Reset, n55],
+    ];
+    for (kind, depth) in [(BufKind::Vec, d.saturating_sub(1)), (BufKind::Arr(1), d.saturating_sub(1))] {
+        let cfg = Cfg { roots: stale_roots.clone(), ..base_cfg("C02", kind, depth, vec!["C02"], &ctx) };
+        let ex = explore(&cfg, &ctx);
+        acc.add("soundness after aborted frames", &cfg, ex);
+    }
     acc.counts.require(&["frames delivered", "frames rejected", "in-frame restarts", "start sequences detected"]);
     let cov = acc.coverage(golden, RULE);
     finish_e1(&ctx, cov, assumptions(), acc.tally)
